@@ -391,6 +391,7 @@ func runC07(c *runCtx) {
 			}
 		}
 	}
+	c07BatchLadder(c)
 	// batch calls: equal to the individual calls, failing at the first failing index
 	for round := 0; round < c.n(100, 2000) && len(batchAll) > 3; round++ {
 		k := 2 + c.rng.Intn(5)
@@ -452,6 +453,61 @@ func runC07(c *runCtx) {
 				}
 			}
 		}
+	}
+}
+
+// c07BatchLadder: batches of every size around the sizes at which an implementation might change its strategy, with two
+// or three rejected items (of different error kinds) at every pair of early positions and at spread positions: the batch
+// fails at the lowest failing index, with that item's error, through both batch entry points
+func c07BatchLadder(c *runCtx) {
+	res := c.res
+	bad := []string{"SELECT 'never closed", "SELECT FROM t", "SELECT a FROM t WHERE", "INSERT INTO t VALUES (", "SELECT 1 2 3"}
+	badCode := make([]string, len(bad))
+	for i, b := range bad {
+		badCode[i] = strings.TrimPrefix(treeOutcome(gosqlx.Parse(b)), "err:")
+	}
+	check := func(size int, pos []int) {
+		qs := make([]string, size)
+		for i := range qs {
+			qs[i] = fmt.Sprintf("SELECT c%d FROM t WHERE a = %d", i%7, i)
+		}
+		first, firstKind := size, 0
+		for n, p := range pos {
+			kind := (p + n) % len(bad)
+			qs[p] = bad[kind]
+			if p < first {
+				first, firstKind = p, kind
+			}
+		}
+		res.count(fmt.Sprintf("batch-ladder|%d|%v", size, pos), true)
+		_, perr := gosqlx.ParseMultiple(qs)
+		verr := gosqlx.ValidateMultiple(qs)
+		for name, e := range map[string]error{"ParseMultiple": perr, "ValidateMultiple": verr} {
+			if e == nil || errCode(e) != badCode[firstKind] || !strings.Contains(e.Error(), fmt.Sprintf("query %d:", first)) {
+				res.fail("batch-first-failure:"+name, "a batch call does not fail at the first failing index with that query's error code", map[string]any{"batch_size": size, "rejected_items_at": pos, "first_failing_index": first},
+					map[string]any{"error": truncate(fmt.Sprint(e), 200), "want_code": badCode[firstKind]})
+				return
+			}
+		}
+	}
+	for _, size := range []int{3, 8, 15, 16, 17, 24, 31, 32, 33, 48, 64, 65, 100, 128, 129, 256, 257} {
+		lim := size
+		if lim > 12 {
+			lim = 12
+		}
+		for i := 0; i < lim; i++ {
+			for j := i + 1; j < lim; j++ {
+				check(size, []int{j, i})
+			}
+		}
+		for k := 0; k < c.n(12, 80); k++ {
+			a, b, d := c.rng.Intn(size), c.rng.Intn(size), c.rng.Intn(size)
+			if a != b && b != d && a != d {
+				check(size, []int{a, b, d})
+			}
+		}
+		check(size, []int{size - 1})
+		check(size, []int{size - 1, size / 2})
 	}
 }
 
